@@ -305,7 +305,15 @@ func TestVfC13Grpc(t *testing.T) {
 			}
 		}
 		r.Hit("grpc_request_answered")
-		if !found && !s.c.isClosed() {
+		// a session which the server has stopped (account deleted, evicted) is told so with an id-less {ctrl 205}; the
+		// gRPC stream itself stays open until the client sends again, so the notice stands for "connection closed"
+		stopped := false
+		for _, f := range s.c.since(0) {
+			if f.Kind == "ctrl" && f.code() == 205 && f.str("id") == "" && f.str("topic") == "" {
+				stopped = true
+			}
+		}
+		if !found && !s.c.isClosed() && !stopped {
 			r.Violation("unanswered:grpc:"+strings.SplitN(s.desc, " ", 2)[0], fmt.Sprintf("gRPC request %s got no reply carrying its id", s.desc), nil)
 		}
 	}
